@@ -129,10 +129,14 @@ End Ext.
 (* PARTIAL (streams): "read the caller's stdin; stdout and stderr bytes arrive unaltered and in
    order".  The model can only say which stream is connected to which (c.Stdin = inv.Stdin ...);
    that bytes survive os/exec and the kernel's pipes is carried by the correspondence run only. *)
-Theorem C11_streams_wiring_partial :
-  w_stdin run_compiled_wiring = CallerStdin /\ w_stdout run_compiled_wiring = CallerStdout /\
-  w_stderr run_compiled_wiring = CallerStderr.
-Proof. repeat split. Qed.
+(* for EVERY invocation (any flags, listing or help or running) and any number of words - none: the
+   default target runs - the compiled magefile's stdin is the caller's, its stdout the caller's
+   stdout, its stderr the caller's stderr *)
+Theorem C11_streams_wiring_partial : forall inv nargs,
+  w_stdin (run_compiled_wiring inv nargs) = CallerStdin /\
+  w_stdout (run_compiled_wiring inv nargs) = CallerStdout /\
+  w_stderr (run_compiled_wiring inv nargs) = CallerStderr.
+Proof. exact streams_wired_each. Qed.
 
 (* the code before a52b92f / 3a2321a (value appended only when true) violates C11_accessors *)
 Theorem C11_before_repair_refuted : forall parse_dur dur_string join,
